@@ -11,13 +11,12 @@
         mpz_add / mpz_sub / mpz_add_ui / mpz_sub_ui / mpz_cmp -> Int arithmetic
       so the content of the theorems (MpirProofs/Props/C02_mpz.lean) is the size / sign / early-exit /
       adjust / temporary-copy logic of each wrapper.
-  (c) value-level model of mpn_tdiv_qr's contract and a limb-level model of mpn_sb_div_qr.
+  (c) value-level model of mpn_tdiv_qr's contract (the limb-level model of mpn_sb_div_qr is Mpir/Model/SbDiv.lean).
 
   Sources mirrored (tie = correspondence, ops in Mpir/Ops/DivZ.lean, harness/ops_divz.c):
     mpz/tdiv_qr.c tdiv_q.c tdiv_r.c fdiv_qr.c fdiv_q.c fdiv_r.c cdiv_qr.c cdiv_q.c cdiv_r.c mod.c
     mpz/{t,f,c}div_{q,r,qr}_ui.c {t,f,c}div_ui.c cfdiv_q_2exp.c cfdiv_r_2exp.c tdiv_q_2exp.c tdiv_r_2exp.c
     mpz/divexact.c dive_ui.c divis.c divis_ui.c divis_2exp.c cong.c cong_ui.c cong_2exp.c
-    mpn/generic/sb_div_qr.c, gmp-impl.h (udiv_qr_3by2, sub_333, mpir_invert_pi1)
   Build facts used: 64-bit limbs, no nails, BITS_PER_UI == GMP_NUMB_BITS (the `divisor > GMP_NUMB_MAX`
   branches of the _ui files are compiled out).
 -/
@@ -583,10 +582,6 @@ def mpnDivrem (n d : List Nat) (qxn : Nat) : Option (List Nat × List Nat × Nat
   let qn := n.length - d.length + qxn
   some (toLimbs qn (N / val d), toLimbs d.length (N % val d), N / val d / B ^ qn)
 
-/-- value of `mpir_invert_pi1 (dinv, d1, d0)` for a normalised two-limb ⟨d1,d0⟩ (gmp-impl.h:2831):
-    ⌊(B³-1)/(d1·B+d0)⌋ - B -/
-def invert_pi1 (d1 d0 : Nat) : Nat := (B ^ 3 - 1) / (d1 * B + d0) - B
-
 /-- mpn_sb_div_qr / mpn_dc_div_qr / mpn_inv_div_qr (qp, np, nn, dp, dn, dinv): divisor normalised;
     nn-dn quotient limbs, remainder in the low dn limbs of np, returns the high quotient limb (0 or 1).
     `minDn`, `minQn`: the size limits the C asserts (sb: dn > 2, nn ≥ dn; dc/inv: dn ≥ 6, nn-dn ≥ 3). -/
@@ -643,78 +638,6 @@ def mpnDivexact (n d : List Nat) : Option (List Nat) :=
   if ¬ topNonzero d ∨ n.length < d.length ∨ val n % val d ≠ 0 then none else
   some (toLimbs (n.length - d.length + 1) (val n / val d))
 
-/-! ## mpn_sb_div_qr, limb level (mpn/generic/sb_div_qr.c) -/
-
-/-- udiv_qr_3by2 (q, r1, r0, n2, n1, n0, d1, d0, dinv), gmp-impl.h:2871.  Returns (q, r1, r0). -/
-def udiv_qr_3by2 (n2 n1 n0 d1 d0 dinv : Nat) : Nat × Nat × Nat :=
-  let (q, q0) := umul_ppmm n2 dinv                           -- umul_ppmm (q, _q0, n2, dinv)
-  let s := (q * B + q0 + n2 * B + n1) % (B * B)              -- add_ssaaaa (q, _q0, q, _q0, n2, n1)
-  let q := s / B
-  let q0 := s % B
-  let r1 := (n1 + B * B - (d1 * q) % B) % B                  -- r1 = n1 - d1 * q
-  let t := (r1 * B + n0 + B * B - (d1 * B + d0)) % (B * B)   -- sub_ddmmss (r1, r0, r1, n0, d1, d0)
-  let (t1, t0) := umul_ppmm d0 q                             -- umul_ppmm (_t1, _t0, d0, q)
-  let t := (t + B * B - (t1 * B + t0)) % (B * B)             -- sub_ddmmss (r1, r0, r1, r0, _t1, _t0)
-  let q := (q + 1) % B                                       -- q++
-  let r1 := t / B
-  -- if (r1 >= _q0) { q--; add_ssaaaa (r1, r0, r1, r0, d1, d0); }
-  let (q, t) := if r1 ≥ q0 then ((q + B - 1) % B, (t + d1 * B + d0) % (B * B)) else (q, t)
-  -- if (UNLIKELY (r1 >= d1)) if (r1 > d1 || r0 >= d0) { q++; sub_ddmmss (r1, r0, r1, r0, d1, d0); }
-  let (q, t) :=
-    if t / B ≥ d1 then
-      (if t / B > d1 ∨ t % B ≥ d0 then ((q + 1) % B, (t + B * B - (d1 * B + d0)) % (B * B)) else (q, t))
-    else (q, t)
-  (q, t / B, t % B)
-
-/-- replace the limbs of `a` starting at `off` by `w` -/
-def splice (a : List Nat) (off : Nat) (w : List Nat) : List Nat :=
-  a.take off ++ w ++ a.drop (off + w.length)
-
-/-- the main loop of sb_div_qr.c:75-102.  `arr` is the dividend area, `ptr` the index C's `np` points at,
-    `n1` the register copy of the top partial-remainder limb, `qs` the quotient limbs produced so far
-    (least significant first). -/
-def sbLoop (dp : List Nat) (d1 d0 dinv : Nat) : Nat → Nat → Nat → List Nat → List Nat → List Nat × List Nat × Nat
-  | 0, _, n1, arr, qs => (qs, arr, n1)
-  | i + 1, ptr, n1, arr, qs =>
-    let dn := dp.length - 2                                  -- "offset dn by 2 for main division loops"
-    let ptr := ptr - 1                                       -- np--
-    if n1 = d1 ∧ arr.getD (ptr + 1) 0 = d0 then              -- :78
-      let q := B - 1
-      let win := (arr.drop (ptr - dn)).take (dn + 2)
-      let (w, _) := submul_1 win dp q                        -- :81 mpn_submul_1 (np - dn, dp, dn + 2, q)
-      let arr := splice arr (ptr - dn) w
-      sbLoop dp d1 d0 dinv i ptr (arr.getD (ptr + 1) 0) arr (q :: qs)       -- :82 n1 = np[1]
-    else
-      let (q, n1, n0) := udiv_qr_3by2 n1 (arr.getD (ptr + 1) 0) (arr.getD ptr 0) d1 d0 dinv   -- :86
-      let win := (arr.drop (ptr - dn)).take dn
-      let (w, cy2) := submul_1 win (dp.take dn) q            -- :88
-      let arr := splice arr (ptr - dn) w
-      -- :90 sub_333 (cy, n1, n0, 0, n1, n0, 0, 0, cy2): three-limb subtraction ⟨0,n1,n0⟩ - ⟨0,0,cy2⟩
-      let t := (n1 * B + n0 + B * B * B - cy2) % (B * B * B)
-      let cy := t / (B * B)
-      let n1 := t / B % B
-      let n0 := t % B
-      let arr := splice arr ptr [n0]                         -- :92 np[0] = n0
-      if cy ≠ 0 then                                         -- :94
-        let win := (arr.drop (ptr - dn)).take (dn + 1)
-        let (w, c) := add_n win (dp.take (dn + 1))           -- :96 mpn_add_n (np - dn, np - dn, dp, dn + 1)
-        let arr := splice arr (ptr - dn) w
-        sbLoop dp d1 d0 dinv i ptr ((n1 + d1 + c) % B) arr (((q + B - 1) % B) :: qs)   -- :96-97
-      else
-        sbLoop dp d1 d0 dinv i ptr n1 arr (q :: qs)
-
-/-- mpn_sb_div_qr (qp, np, nn, dp, dn, dinv): dn > 2, nn ≥ dn, dp normalised.
-    Returns (quotient limbs, the dividend area afterwards, qh). -/
-def sb_div_qr (np dp : List Nat) (dinv : Nat) : List Nat × List Nat × Nat :=
-  let nn := np.length
-  let dn := dp.length
-  let hi := np.drop (nn - dn)
-  let qh := if cmp hi dp ≥ 0 then 1 else 0                   -- :64 qh = mpn_cmp (np - dn, dp, dn) >= 0
-  let arr := if qh ≠ 0 then np.take (nn - dn) ++ (sub_n hi dp).1 else np    -- :65-66
-  let d1 := dp.getD (dn - 1) 0                               -- :68
-  let d0 := dp.getD (dn - 2) 0                               -- :74
-  let n1 := arr.getD (nn - 1) 0                              -- :78 (np -= 2; n1 = np[1])
-  let (qs, arr, n1) := sbLoop dp d1 d0 dinv (nn - dn) (nn - 2) n1 arr []
-  (qs, splice arr (dn - 1) [n1], qh)                         -- :104 np[1] = n1
+-- The limb-level model of mpn_sb_div_qr lives in Mpir/Model/SbDiv.lean (theorems: MpirProofs/Props/C02_sb.lean).
 
 end Mpir.DivZ
